@@ -101,6 +101,20 @@ func (o Op) String() string {
 			return fmt.Sprintf("mslice(%d:%d,%d:%d)", o.I, o.J, o.K, o.L)
 		}
 		return fmt.Sprintf("mslice(%d:%d,%d:%d).at(%d,%d):=%d", o.I, o.J, o.K, o.L, o.S, o.W, o.V)
+	case "jopen", "mjopen":
+		return fmt.Sprintf("%s(w%d:%s %v..)", jformName(o.S), o.W, kindName(o.W), jointPattern(o.W/2, 4))
+	case "jnext", "jdrop", "bwalk", "mjnext", "mjdrop", "mbwalk":
+		return o.C
+	case "bset":
+		return fmt.Sprintf("operand.set(%d:=%d)", o.I, o.V)
+	case "mbset":
+		return fmt.Sprintf("operand.set(%d,%d:=%d)", o.I, o.J, o.V)
+	case "slop":
+		return fmt.Sprintf("slice(%d,%d).%s[w%d]", o.I, o.J, vecWriterName(o), o.W)
+	case "mslop":
+		return fmt.Sprintf("mslice(%d:%d,%d:%d).%s[w%d]", o.I, o.J, o.K, o.L, matWriterName(o), o.W)
+	case "vop":
+		return vopName(o.W)
 	case "walk", "reset", "rev", "clone", "mwalk", "mreset", "mident", "mT", "mTip", "mclone", "mdiag":
 		return o.C
 	}
@@ -181,14 +195,17 @@ func setPatterns(n int) [][]int {
 	return setPatternsCompute(n)
 }
 
-var setPatCache, maskPatCache [7][][]int
+var setPatCache [11][][]int
+var maskPatCache [7][][]int
 var permCache [6][][]int
 var thoroughMenus bool
 
 func initCaches(thorough bool) {
 	thoroughMenus = thorough
-	for n := 0; n < 7; n++ {
+	for n := range setPatCache {
 		setPatCache[n] = setPatternsCompute(n)
+	}
+	for n := range maskPatCache {
 		maskPatCache[n] = maskPatternsCompute(n)
 	}
 	for n := 0; n < 6; n++ {
